@@ -476,6 +476,7 @@ def service_analyse(chk, prop, parsed, report=True):
         st['histories'] += 1
         prefix = lambda k: ' ; '.join([pr['header']] + pr['ops'][:k + 1])
         prev_hash, prev_res, diverged, nontrivial = None, '', False, False
+        stale, prev_fh = False, None
         for k, sg in enumerate(pr['segs']):
             toks = sg['impl'].split()
             res, hs, hv = (toks + ['?', '?', '?'])[:3]
@@ -500,10 +501,14 @@ def service_analyse(chk, prop, parsed, report=True):
                 break
             fails = [('SVC:' + f[9:] + '_(global_epoch_only)') if f.startswith('SVCEPOCH:') else f for f in fails]
             # the contract itself, recomputed from the printed hashes (independent of the harness' own comparison)
-            if fh != hs:
+            if fh != hs and not any('meta_file_differs' in f for f in fails):
                 fails.append('SVC:meta_file_hash_%s_differs_from_the_in-memory_store_hash_%s_after_%s_(%s)' % (fh, hs, kind, res))
-            if kind == 'svcrestart' and prev_hash is not None and hs != prev_hash:
+            if kind == 'svcrestart' and prev_hash is not None and hs != prev_hash and not any('store_after_restart_differs' in f for f in fails):
                 fails.append('SVC:store_hash_after_restart_%s_differs_from_the_hash_before_%s' % (hs, prev_hash))
+            # a file that was already behind before this call is reported where it fell behind, not again after every later call that does not write
+            if stale and fh != hs and fh == prev_fh:
+                fails = [f for f in fails if 'meta_file' not in f]
+            stale, prev_fh = (fh != hs), fh
             seen = set()
             for f in fails:
                 lab = f.split(':')[0]
